@@ -22,6 +22,7 @@ kind=pool mode=conc:
 -/
 import GoZero.Base.Trace
 import GoZero.C05.Spec
+import GoZero.C05.ModelOpts
 namespace GoZero.C05
 
 open GoZero
@@ -275,7 +276,7 @@ def parseHEv (tok : String) : Option (HEv × Bool) :=
   | 'e' :: rest => (String.ofList rest).toNat?.map fun t => (.retErr t, false)
   | _ => none
 
-def runHistory (r : Report) (sec line : Nat) (kind : String) (n : Nat) (obs : List String) : Report := Id.run do
+def runHistory (r : Report) (sec line : Nat) (kind : String) (n : Nat) (obs : List String) (ctx : String := "") : Report := Id.run do
   let mut m : HistMon := { cap := n, inside := [] }
   let mut r := r
   -- the same history through the site program: one fresh model thread per entry
@@ -290,14 +291,18 @@ def runHistory (r : Report) (sec line : Nat) (kind : String) (n : Nat) (obs : Li
   for tok in obs do
     if bad then break
     if (kv? [tok] "early").isSome then
-      r := r.violation sec line s!"kind={kind} Wait/Start returned while {(kv? [tok] "early").getD "?"} holders were still inside the guarded function"
+      r := r.violation sec line s!"kind={kind}{ctx} Wait/Start returned while {(kv? [tok] "early").getD "?"} holders were still inside the guarded function"
       bad := true
       break
+    if (kv? [tok] "sat").isSome then
+      -- how the harness saw the run saturated (dispatcher parked at its acquire / all items inside / over the cap)
+      r := r.addCover s!"{kind}-saturated-by-{(kv? [tok] "sat").getD "?"}"
+      continue
     match kv? [tok] "free", kv? [tok] "gauge" with
     | some v, _ =>
       -- mr / fx / WorkerGroup: the limiting channel is a local variable of the library function (or there is
       -- none), nothing to measure afterwards
-      if v = "unobservable" ∧ (kind = "mr" ∨ kind = "fx" ∨ kind = "wgroup") then freeSkip := true
+      if v = "unobservable" ∧ (kind = "mr" ∨ kind = "fx" ∨ kind = "wgroup" ∨ kind = "fxunl") then freeSkip := true
       else
         match v.toNat? with
         | some k => free := some k
@@ -306,7 +311,7 @@ def runHistory (r : Report) (sec line : Nat) (kind : String) (n : Nat) (obs : Li
       match v.toNat? with
       | some k =>
         if n < k then
-          r := r.violation sec line s!"kind={kind} cap exceeded: gauge peak {k} inside the guarded region, n={n}"; bad := true
+          r := r.violation sec line s!"kind={kind}{ctx} cap exceeded: gauge peak {k} inside the guarded region, n={n}"; bad := true
       | none => r := r.mismatch sec line "gauge=<nat>" tok; bad := true
     | none, none =>
       match parseHEv tok with
@@ -322,7 +327,7 @@ def runHistory (r : Report) (sec line : Nat) (kind : String) (n : Nat) (obs : Li
         match v with
         | .ok => pure ()
         | .malformed msg => r := r.mismatch sec line "well-formed history" msg; bad := true
-        | .violation msg => r := r.violation sec line s!"kind={kind} {msg}"; bad := true
+        | .violation msg => r := r.violation sec line s!"kind={kind}{ctx} {msg}"; bad := true
         if !bad then
           match ir, ev with
           | some x, .enter t =>
@@ -352,7 +357,7 @@ def runHistory (r : Report) (sec line : Nat) (kind : String) (n : Nat) (obs : Li
       match m.final k with
       | .ok => pure ()
       | .malformed msg => r := r.mismatch sec line "quiescent end" msg
-      | .violation msg => r := r.violation sec line s!"kind={kind} {msg}"
+      | .violation msg => r := r.violation sec line s!"kind={kind}{ctx} {msg}"
   if kind = "wgroup" ∧ !bad ∧ enters ≠ n then
     r := r.violation sec line s!"kind=wgroup {enters} jobs were started, workers={n}"
   r := r.addCover s!"{kind}-conc-enters" enters
@@ -683,12 +688,83 @@ def runEngine (r : Report) (s : Section) (mode : String) : Report := Id.run do
         | none => r := r.mismatch s.idx l.idx "global=<nat>" (joinSp l.obs)
   return r
 
+/-! ### sequences of fx / mr streams in one process, each with its own option list -/
+
+def parseWOpts (s : String) : Option (List WOpt) :=
+  if s = "none" then some []
+  else (s.splitOn "+").mapM fun o =>
+    if o = "unl" then some WOpt.unlimited
+    else match o.toList with
+      | 'w' :: rest => (String.ofList rest).toInt?.map WOpt.withWorkers
+      | _ => none
+
+def optClass (opts : List WOpt) : String :=
+  if opts = [] then "default"
+  else if opts.contains .unlimited then "unlimited"
+  else match streamCap opts with
+    | some n => if n > 16 then "above-default" else if n = 16 then "exactly-default" else if n = 1 then "one" else "small"
+    | none => "unlimited"
+
+/-- every stream of the section is checked against the cap of ITS OWN options (`streamCap`, see
+`stream_cap_own_options` / `seqCaps_own`): the history through `HistMon` and the site program with that cap. -/
+def runOptSeq (r : Report) (s : Section) (lib : String) : Report := Id.run do
+  let mut r := r
+  let mut before : List String := []      -- classes of the streams run earlier in this process
+  for l in s.lines do
+    r := { r with ops := r.ops + 1 }
+    match l.op.head?, (kv? l.op "opt").bind parseWOpts, (kv? l.op "items").bind (·.toNat?) with
+    | some "run", some opts, some items =>
+      if lib = "mr" ∧ opts.contains .unlimited then r := r.mismatch s.idx l.idx "mr has no unlimited option" (joinSp l.op)
+      else
+        let cls := optClass opts
+        r := r.addCover s!"{lib}opts-{cls}"
+        if opts.length ≥ 2 then r := r.addCover s!"{lib}opts-several-options-in-one-list"
+        if opts.any (fun o => match o with | .withWorkers k => k < 1 | _ => false) then r := r.addCover s!"{lib}opts-withworkers-below-min"
+        for b in before.eraseDups do
+          if b ≠ cls then r := r.addCover s!"{lib}opts-{cls}-after-{b}"
+        if before ≠ [] then r := r.addCover s!"{lib}opts-later-stream-of-the-process"
+        let ctx := s!" stream #{before.length + 1} of the process, own options [{(kv? l.op "opt").getD "?"}]"
+        if l.obs.head? = some "stuck" ∨ l.obs.head? = some "TIMEOUT-goroutines" then
+          r := r.violation s.idx l.idx s!"kind={lib}{ctx} the run did not terminate ({joinSp (l.obs.take 1)}): workers ended but their slots / wait-group counts never came back"
+        else
+          match streamCap opts with
+          | some n =>
+            if items > n then r := r.addCover s!"{lib}opts-more-items-than-cap"
+            r := runHistory r s.idx l.idx lib n l.obs ctx
+          | none =>
+            -- UnlimitedWorkers: no cap to check; the history has to be well formed and complete
+            r := runHistory r s.idx l.idx "fxunl" (max items 1) l.obs ctx
+        before := before ++ [cls]
+    | _, _, _ => r := r.mismatch s.idx l.idx "run opt=<none|w<k>|unl[+…]> items=<m> …" (joinSp l.op)
+  return r
+
+def parseNs (s : String) : Option (List Int) := (s.splitOn ",").mapM (·.toInt?)
+
 def semKinds : List String := ["limit", "tlimit", "runner", "maxconns", "mr", "fx", "wgroup"]
 
 def runSection (r : Report) (s : Section) : Report :=
   let kind := kvStr s.cfg "kind"
   let mode := kvStr s.cfg "mode"
   if kind = "engine" then runEngine r s mode else
+  if kind = "fxopts" ∨ kind = "mropts" then runOptSeq r s (if kind = "fxopts" then "fx" else "mr") else
+  if (kv? s.cfg "ns").isSome then
+    -- several instances in one section: op `<o> <i> …` addresses instance i; each instance against its own n
+    match (kv? s.cfg "ns").bind parseNs with
+    | none => r.mismatch s.idx 0 "cfg ns=<n0>,<n1>,…" (joinSp s.cfg)
+    | some ns =>
+      if mode ≠ "seq" ∨ !(semKinds.contains kind) then r.mismatch s.idx 0 "ns= only for sequential semaphore kinds" (joinSp s.cfg)
+      else Id.run do
+        let mut r := r.addCover s!"{kind}-several-instances-in-one-section"
+        if ns.eraseDups.length < ns.length then r := r.addCover s!"{kind}-instances-with-equal-capacity"
+        let covered := (List.range ns.length).foldl (fun k i => k + (projectRoute s i).lines.length) 0
+        if covered ≠ s.lines.length then r := r.mismatch s.idx 0 "every op names an instance below the number of ns=" (joinSp s.cfg)
+        for (n, i) in ns.zipIdx do
+          if n ≤ 0 then
+            if kind = "maxconns" then r := runUnlimited r (projectRoute s i)
+            else r := r.mismatch s.idx 0 "n >= 1" (joinSp s.cfg)
+          else r := runSeq r (projectRoute s i) kind n.toNat
+        return r
+  else
   match (kv? s.cfg "n").bind (·.toNat?) with
   | none => r.mismatch s.idx 0 "cfg n=<nat>" (joinSp s.cfg)
   | some n =>
